@@ -40,7 +40,10 @@ def spec_of(root):
             body = " + ".join(["tick()", zi, str(1 + 7 * i)] + ["e%d()" % j for j in preds[i]])
             cells["e%d" % i] = {"src": "lambda: " + body, "cached": i not in unc}
         refs = {"z": 0, "z2": 0} if root.get("zref") == "attr2" else {"z": 0}
-    return {"refs": {"tick": "<tick>"}, "spaces": {"S": {"refs": refs, "cells": cells}}}
+    sd = {"refs": refs, "cells": cells}
+    if root.get("none"):
+        sd["allow_none"] = True     # None is an assignable value: a held None is a value like any other
+    return {"refs": {"tick": "<tick>"}, "spaces": {"S": sd}}
 
 
 def elem_ops(root):
@@ -59,6 +62,8 @@ def elem_ops(root):
             ops.append({"op": "set_formula", "sp": "S", "c": c, "src": src})
         ops.append(set_input("S", c, a, 100 + i))
         ops.append(set_input("S", c, a, 200 + i))
+        if root.get("none"):
+            ops.append(set_input("S", c, a, None))
         ops.append(cl("clear_at", "S", c, *a))
         if enc == "B":
             ops.append(cl("clear", "S", c))
@@ -146,7 +151,10 @@ def run_history(root, hist):
                 break
         if ob[0] != "ok":
             if k == "q":
-                bad("query-raises", {"op": op, "result": ob}, "a value")
+                # (an assigned None makes the dependents' arithmetic fail: the reference evaluation fails alike)
+                rq = RefTrees(rm).tree("S", op["c"], tuple(op.get("args", [])))
+                if rq[0] == "ok":
+                    bad("query-raises", {"op": op, "result": ob}, "a value")
             # a rejected edit (e.g. del_value on nothing) is C11's business
             break
         rt = RefTrees(rm)
@@ -281,6 +289,14 @@ def roots(tier):
                         # an uncached element is interesting only if it has a dependent
                         if any(j == u for (j, k) in edges):
                             out.append({"n": n, "edges": edges, "enc": "B", "uncached": [u], "recalc": recalc})
+    # None as an assigned value (allow_none on the space)
+    for n, edges in ((2, [[0, 1]]), (3, [[0, 1], [1, 2]]), (3, [[0, 2], [1, 2]])):
+        for enc in ("A", "B"):
+            out.append({"n": n, "edges": edges, "enc": enc, "uncached": [], "recalc": False, "none": True})
+    # two consecutive uncached elements between an edited element and a cached dependent
+    for recalc in (False, True):
+        out.append({"n": 4, "edges": [[0, 1], [1, 2], [2, 3]], "enc": "B", "uncached": [1, 2], "recalc": recalc,
+                    "deep": True})
     if tier == "quick":
         # longer chains: a 4-chain and a 4-diamond (dependents two and three levels away)
         for edges in ([[0, 1], [1, 2], [2, 3]], [[0, 1], [0, 2], [1, 3], [2, 3]]):
